@@ -42,7 +42,8 @@ def make_history(g, sc, rounds, allow_faults=True, allow_interrupt=True, allow_e
         elif allow_edit_running and x < 0.35:
             # edit a source while the command that reads it runs (non restat/generator readers only)
             cands = [s for s in cur["stmts"] if s["kind"] == "cmd" and not s["restat"] and not s["generator"] and s["ins"]
-                     and s["ins"][0] in cur["sources"]]
+                     and s["ins"][0] in cur["sources"]
+                     and not (s["dd"] and "#ddrestat" in cur["sources"][s["ins"][0]])]     # restat through the dyndep file
             if cands:
                 s = r.choice(cands)
                 p = s["ins"][0]
@@ -183,7 +184,11 @@ class HistoryJudge:
                     extra[s["id"]] = d
         C = graph.closure(targets, extra)
         ncmp = 0
-        for sid in sorted(C):
+        try:
+            order = graph.topo(C, extra)      # most upstream difference first: that is the root cause
+        except model.Invalid:
+            order = sorted(C)
+        for sid in order:
             s = graph.by_id[sid]
             if s["kind"] == "phony":
                 continue
